@@ -38,6 +38,10 @@ pub struct SeqScenario {
     pub punch_unsupported: bool,
     /// report C01/C02/C03 oracle failures under this property instead (C10, C11, C12 runs)
     pub relabel: Option<String>,
+    /// relabel every property's violations (C12 runs the C04/C05/C16 oracles too)
+    pub relabel_all: bool,
+    /// after opening a crash image keep using it: write this many fresh clusters, flush, re-check (C12)
+    pub crash_continue: usize,
 }
 
 pub fn op_kind(op: &Op) -> &'static str {
@@ -77,6 +81,8 @@ impl SeqScenario {
             crash_seen: Mutex::new(HashSet::new()),
             punch_unsupported: false,
             relabel: None,
+            relabel_all: false,
+            crash_continue: 0,
         }
     }
 
@@ -97,7 +103,7 @@ impl SeqScenario {
 
     fn viol(&self, prop: &str, class: String, detail: String, hist: &[Op]) -> Violation {
         let (prop, class) = match &self.relabel {
-            Some(r) if ["C01", "C02", "C03"].contains(&prop) => (r.as_str(), format!("{}:{}", prop, class)),
+            Some(r) if self.relabel_all || ["C01", "C02", "C03"].contains(&prop) => (r.as_str(), format!("{}:{}", prop, class)),
             _ => (prop, class),
         };
         Violation {
@@ -497,6 +503,11 @@ impl SeqScenario {
                         bad05 = self.c05_check(w, img, sv, &hist[sync_pos..]);
                     }
                 }
+                if self.crash_continue > 0 && bad04.is_none() {
+                    if let Some(x) = self.continue_after_crash(w, img) {
+                        bad04 = Some(x);
+                    }
+                }
                 true
             });
             ev.counters[2] += st.images;
@@ -554,6 +565,57 @@ impl SeqScenario {
         }
     }
 
+    /// "usable image": open the crash image, write fresh clusters until the allocator has
+    /// crossed the next refcount-block boundary, flush, and let the checker and a read-back judge
+    fn continue_after_crash(&self, w: &World, img: &[u8]) -> Option<(String, String)> {
+        let cs = w.rd.cs as u64;
+        let mut files = w.sim.borrow().files.clone();
+        files[0] = img.to_vec();
+        let sim2 = Sim::new(files);
+        let dev2 = match open_chain(&sim2, 0, &self.cfg, false) {
+            Ok(d) => d,
+            Err(e) => return Some((format!("continue:open-failed:{}", err_category(&e)), format!("crash image cannot be opened: {}", e))),
+        };
+        // fresh guest clusters from the top of the virtual disk downwards
+        let top = w.rd.vsize / cs;
+        let mut written = vec![];
+        for k in 0..self.crash_continue as u64 {
+            let g = top - 1 - k;
+            let buf = make_write_buf(cs as usize, 0x700 + k as u32);
+            let r = std::panic::catch_unwind(std::panic::AssertUnwindSafe(|| block_on(dev2.write_at(&buf[..cs as usize], g * cs))));
+            match r {
+                Ok(Ok(())) => written.push((g, 0x700 + k as u32)),
+                Ok(Err(e)) => return Some((format!("continue:write-failed:{}", err_category(&format!("{e:?}"))), format!("write #{} after the crash failed: {e:?}", k))),
+                Err(p) => return Some((format!("continue:write-panic:{}", err_category(&panic_msg(p))), format!("write #{} after the crash panicked", k))),
+            }
+        }
+        match std::panic::catch_unwind(std::panic::AssertUnwindSafe(|| block_on(dev2.flush_meta()))) {
+            Ok(Ok(())) => {}
+            Ok(Err(e)) => return Some(("continue:flush-failed".into(), format!("flush_meta after the crash failed: {e:?}"))),
+            Err(p) => return Some(("continue:flush-panic".into(), panic_msg(p))),
+        }
+        let rep = check_image(&sim2.borrow().files[0]);
+        if let Some((c, d)) = rep.first_problem(false) {
+            return Some((format!("continue:image-unsafe:{}", c), format!("after re-opening the crash image, writing {} fresh clusters and flush_meta: {}", self.crash_continue, d)));
+        }
+        for (g, tag) in written {
+            let mut b = qcow2_rs::helpers::Qcow2IoBuf::<u8>::new(cs as usize);
+            match block_on(dev2.read_at(&mut b, g * cs)) {
+                Ok(n) if n == cs as usize => {
+                    let got = decode_read(&b);
+                    if let Some(i) = got.iter().enumerate().position(|(i, x)| *x != Some(spec::word(tag, i as u32))) {
+                        return Some((
+                            format!("continue:data-corrupted:got-{}", classify_word(got[i])),
+                            format!("guest cluster {:#x} written after the crash reads {} at block {}", g * cs, describe_word(got[i]), i),
+                        ));
+                    }
+                }
+                r => return Some(("continue:read-failed".into(), format!("{:?}", r.map_err(|e| format!("{e:?}"))))),
+            }
+        }
+        None
+    }
+
     /// open the crash image with the library and compare every synced block
     fn c05_check(&self, w: &World, img: &[u8], synced: &[u64], since: &[Op]) -> Option<(String, String)> {
         // allowed values per block: synced value + values of operations issued after the sync
@@ -581,7 +643,7 @@ impl SeqScenario {
                 *x = 0x5a;
             }
             let r = std::panic::catch_unwind(std::panic::AssertUnwindSafe(|| {
-                futures::executor::block_on(dev2.read_at(&mut buf, (b0 * BLK) as u64))
+                crate::world::block_on(dev2.read_at(&mut buf, (b0 * BLK) as u64))
             }));
             let got = match r {
                 Ok(Ok(n)) if n == len => decode_read(&buf),
